@@ -21,10 +21,11 @@ from harness.translate import rom as romtr
 PROP = "C09"
 LEAN_MODULES = ["LunaVerif.Props.C09Spec", "LunaVerif.Lemmas.C09Stage", "LunaVerif.Lemmas.C09Block",
                 "LunaVerif.Lemmas.C09BlockReq", "LunaVerif.Lemmas.C09Dist", "LunaVerif.Lemmas.C09DistReq",
+                "LunaVerif.Lemmas.C09Rom", "LunaVerif.Lemmas.C09RomLookup", "LunaVerif.Lemmas.C09RomCorrect",
                 "LunaVerif.Props.C09"]
 DRIVER = "Driver/C09.lean"
-REQUIRED_THEOREMS = ["datastage_exact", "dataStage_concat", "dataStage_packet_le", "block_packet_exact_partial",
-                     "dist_packet_exact", "stall_without_data_when_absent_block_partial",
+REQUIRED_THEOREMS = ["datastage_exact", "dataStage_concat", "dataStage_packet_le", "rom_lookup_correct",
+                     "block_packet_exact", "dist_packet_exact", "stall_without_data_when_absent_block",
                      "stall_without_data_when_absent_dist"]
 RULE = ("cases = (handler class in {block, distributed, mux(block+distributed runtime)}, max packet size in "
         "{8,16,32,64}, random descriptor collection of 1..10 descriptors with lengths 1..300 weighted to "
@@ -44,13 +45,9 @@ ASSUMPTIONS = [
     "is used for them with lengths that are not multiples of 8 (such a generator cannot represent "
     "start_position == its length; the fixed-descriptor path was repaired for that case, see notes/C09.md)",
 ]
-PARTIAL = ("block_packet_exact_partial / stall_without_data_when_absent_block_partial ASSUME rom_lookup_correct in the form "
-           "`romOk (Rom.layout coll) coll` (the two pointer hops over the generated ROM reach length, aligned address "
-           "and bytes of every present (type,index) and refuse every absent one, for all 65536 wValues); this is not "
-           "proved for arbitrary collections — it is EVALUATED by the compiled Lean driver on the ROM of every "
-           "collection generated in the run (kind 'rom' cases: output column romOk must be 1) and Rom.layout itself is "
-           "diffed against the repo's generate_rom_content on the same collections.  The distributed handler theorem "
-           "(dist_packet_exact) is full.  Not covered by theorems (co-simulation + monitor only): the mux model "
+PARTIAL = ("rom_lookup_correct (wellFormed coll -> romOk (Rom.layout coll) coll) is proved for arbitrary collections, "
+           "and block_packet_exact / stall_without_data_when_absent_block / dist_packet_exact are full per request.  "
+           "Not covered by theorems (co-simulation + monitor only): the mux model "
            "(stall latches, tx OR/mux), runtime-descriptor generators, that the handlers are idle again when the "
            "next IN arrives (each request is proved from an arbitrary idle state), and the composition with the "
            "real StandardRequestHandler/packet generator (mimicked by the testbench).")
